@@ -133,4 +133,17 @@ func buildRegistry() {
 	gn.G1.Hash, gn.G1.HashDST = hash2Of(gn.G1.G), true
 	gn.G2.Hash, gn.G2.HashDST = hash2Of(gn.G2.G), true
 	gn.GT.HasPick = false
+	alt := func(name string, g kyber.Group) { groupByNameRaw(name).Alt = g }
+	alt("ed25519", edwards25519.NewBlakeSHA256Ed25519())
+	alt("ed25519.allowvt", edwards25519.NewBlakeSHA256Ed25519())
+	alt("edvar.ext25519", new(edwards25519vartime.ExtendedCurve).InitCurve(edwards25519vartime.ParamEd25519(), false))
+	alt("edvar.proj25519", new(edwards25519vartime.ProjectiveCurve).Init(edwards25519vartime.ParamEd25519(), false))
+	alt("p256", p256.NewBlakeSHA256P256())
+	alt("qr512", p256.NewBlakeSHA256QR512())
+	for _, x := range []struct {
+		si *SuiteInfo
+		s  pairing.Suite
+	}{{b6, bn256.NewSuite()}, {b4, bn254.NewSuite()}, {ki, kilic.NewBLS12381Suite()}, {ci, circl.NewSuite()}, {gn, gnark.NewSuite()}} {
+		x.si.G1.Alt, x.si.G2.Alt, x.si.GT.Alt = x.s.G1(), x.s.G2(), x.s.GT()
+	}
 }
